@@ -156,8 +156,6 @@ def gen_case(rng, stream='s2c'):
     if rng.random() < 0.75:
         pool = sorted(set(tcodes) | ({init} if init is not None else set()) | {rng.randrange(ncodes)})
         greedy = rng.sample(pool, rng.randint(1, min(3, len(pool))))
-    if alpha in ('arr', 'arrs') and greedy and rng.random() < 0.9:
-        greedy = []                                  # ndarray greedy values are a known finding: keep it rare
     case = dict(kind=stream, ends=ends, h=h, ts=ts, vals=vals, alpha=alpha, tr=tr, init=init, greedy=greedy,
                 rep=rng.random() < 0.3, t0=rng.choice([0.0, 0.0, 1.5e9, -1000.0, 123456.75]),
                 unit=rng.choice([1.0, 0.5, 0.25, 2.0, 8.0]),
